@@ -55,10 +55,12 @@ var asyncScenarios = []string{"foreach-list", "foreach-object", "map-list", "map
 
 func runAsync(ch *simrt.Chooser, opt Options) RunResult {
 	res := RunResult{Counters: map[string]int{}}
-	cfg := simrt.Config{MaxSteps: 10000, KeepTrace: opt.KeepTrace}
-	cfg.Policy = simrt.Policy(ch.Draw("policy", int(simrt.NumPolicies)))
+	cfg := simrt.Config{MaxSteps: 200000, KeepTrace: opt.KeepTrace}
+	// PCT (few, well-placed preemptions of an otherwise run-to-block schedule) gets a double share
+	cfg.Policy = []simrt.Policy{simrt.PolRandom, simrt.PolLowest, simrt.PolHighest, simrt.PolRoundRobin, simrt.PolPCT, simrt.PolPCT, simrt.PolStarve}[ch.Draw("policy", 7)]
 	cfg.SwitchPermille = []int{50, 200, 500, 800, 1000}[ch.Draw("switch-rate", 5)]
 	cfg.PCTDepth = 1 + ch.Draw("pct-depth", 3)
+	cfg.PCTHorizon = []int{30, 80, 200, 500}[ch.Draw("pct-horizon", 4)]
 	cfg.KeyOrder = simrt.KeyPolicy(ch.Draw("key-order", int(simrt.NumKeyPolicies)))
 	scen := []int{0, 1, 2, 3, 4, 4, 5, 5}[ch.Draw("scenario", 8)]
 	if opt.Scenario >= 0 {
@@ -974,9 +976,53 @@ func readers(s *simrt.Sim, top *asyncClient, sameCall bool, trace *[]string) []*
 			roots = append(roots, genObject(s, treeOpts{depth: 2, width: 6, spare: true, keys: plainKeyPool}))
 		}
 	}
+	if s.Draw("readers-wide", 4) == 0 {
+		// containers beyond small-size thresholds (hints, caches and batch strategies often start at 16, 32 or 64 elements)
+		wl := at.NewList()
+		wo := at.NewObject()
+		n := 17 + s.Draw("wide-n", 60)
+		for i := 0; i < n; i++ {
+			v := genValue(s, treeOpts{depth: 1, width: 3, keys: plainKeyPool})
+			wl.Add(v)
+			wo.Set("w"+strconv.Itoa(i), v)
+		}
+		roots = append(roots, wl, wo)
+		top.ops["probe:readers-wide-heap"]++
+	}
 	// make sure both interfaces are present, and nest one root into another sometimes (shared sub-tree)
 	roots = append(roots, at.NewList(1, "two", 3.5, roots[0]), at.NewObject("a", 1, "b", roots[0]))
 	lists, objs := collect(roots...)
+	// receivers are drawn from the roots half of the time (the roots include the wide containers), otherwise from anywhere
+	var rootLists []at.List
+	var rootObjs []at.Object
+	for _, r := range roots {
+		switch x := r.(type) {
+		case at.List:
+			rootLists = append(rootLists, x)
+		case at.Object:
+			rootObjs = append(rootObjs, x)
+		}
+	}
+	pickRecv := func(onList bool) int {
+		if s.Draw("recv-root", 2) == 0 {
+			if onList {
+				want := rootLists[s.Draw("recv", len(rootLists))]
+				for i, l := range lists {
+					if l == want {
+						return i
+					}
+				}
+			} else {
+				want := rootObjs[s.Draw("recv", len(rootObjs))]
+				for i, o := range objs {
+					if o == want {
+						return i
+					}
+				}
+			}
+		}
+		return s.Draw("recv", 64)
+	}
 	nm := nameHeap(roots...)
 	before := make([]string, len(roots))
 	for i, r := range roots {
@@ -989,7 +1035,7 @@ func readers(s *simrt.Sim, top *asyncClient, sameCall bool, trace *[]string) []*
 	plans := make([][]*roCall, k)
 	if sameCall {
 		onList := s.Draw("same-iface", 2) == 0
-		pick := s.Draw("same-recv", 64)
+		pick := pickRecv(onList)
 		var ops []*roOp
 		if onList {
 			ops = listOps
@@ -1000,9 +1046,19 @@ func readers(s *simrt.Sim, top *asyncClient, sameCall bool, trace *[]string) []*
 		proto := genCall(s, lists, objs, onList, pick)
 		proto.op = op
 		reps := 1 + s.Draw("same-reps", 3)
+		// identical calls, or the same method on the same receiver with independently drawn arguments
+		// (a hidden write keyed by the argument only collides when the arguments differ)
+		sameArgs := s.Draw("same-args", 2) == 0
+		if !sameArgs {
+			top.ops["probe:readers-same-method-different-arguments"]++
+		}
 		for i := range plans {
 			for r := 0; r < reps; r++ {
 				cp := *proto
+				if !sameArgs {
+					cp = *genCall(s, lists, objs, onList, pick)
+					cp.op = op
+				}
 				cp.seq = r + 1
 				plans[i] = append(plans[i], &cp)
 			}
@@ -1012,7 +1068,7 @@ func readers(s *simrt.Sim, top *asyncClient, sameCall bool, trace *[]string) []*
 			n := 3 + s.Draw("calls", 8)
 			for r := 0; r < n; r++ {
 				onList := s.Draw("iface", 2) == 0
-				c := genCall(s, lists, objs, onList, s.Draw("recv", 64))
+				c := genCall(s, lists, objs, onList, pickRecv(onList))
 				if onList {
 					c.op = listOps[s.Draw("op", len(listOps))]
 				} else {
